@@ -20,8 +20,8 @@ CLAIMED = {
          "Seeded search over interleavings of concurrent first-use registrations of the same counters, gauges, timers, histograms and child scopes (1-64 registry shards) with recording on registered metrics and report passes; all callers must receive the same object, a cached reporter sees at most one Allocate per (name, tags, kind) and one bucket allocation per bucket, everything recorded through any handle is delivered, no panic/deadlock. Exploration.",
          "As C01. Data races between plain memory accesses are covered by the -race slice of the check only (happens-before based, schedule dependent); half of the race-slice runs use the workloads of sibling properties (C07, C08, C01, C02, C11, C10: Close / re-request cycles, snapshots, stopwatches), where only a race report counts."),
  "C10": ("6/C10", "deterministic simulation: Record/Start/Stop/Exec histories interleaved with report passes on a fake clock; synchronous-forwarding and elapsed-time oracle",
-         "Seeded search over record histories on timers in several scopes (unique and extreme durations) interleaved with report passes, on plain, cached, plain+cached and reporter-less test scopes; every Record must produce exactly one delivery (through the cached handle whenever a cached reporter is configured) with its value, name and tags, made by the recording task before Record returns, passes deliver no timer values, stopwatches record the fake-clock time between Start and Stop, an instrumented call runs once, returns its error, records one latency and bumps exactly one counter. Exploration.",
-         "As C01; stopwatch bounds use the simulated clock read before/after Start and Stop."),
+         "Seeded search over record histories on timers in several scopes (unique and extreme durations) interleaved with report passes, on plain, cached, plain+cached and reporter-less test scopes; every Record must produce exactly one delivery (through the cached handle whenever a cached reporter is configured) with its value, name and tags, made by the recording task before Record returns, passes deliver no timer values, stopwatches record the fake-clock time between Start and Stop - also when the wall clock is stepped back or forth in between (fault F12: a quarter of the programs step the wall clock by seconds to a day at seeded times while the monotonic clock runs on) -, an instrumented call runs once, returns its error, records one latency and bumps exactly one counter. Exploration.",
+         "As C01; stopwatch bounds use the simulated clock read before/after Start and Stop. Inside a synctest bubble time.Now carries no monotonic reading; in programs with wall-clock steps the time shim synthesises one."),
  "C11": ("6/C11", "deterministic simulation: test-scope histories with quiescent and concurrent snapshots compared with a reference ledger",
          "Seeded search over record histories on a test scope and derived scopes with snapshots taken concurrently and at quiescence; a quiescent snapshot must equal the reference ledger exactly (keys, names, tags, counter sums, last gauge bits, timer values, every bucket incl. empty ones and duplicated bounds), a concurrent one must lie between completed and invoked increments, one full name + tag set held by two scopes (a dotted metric name next to a subscope) is one entry with the combined values, a snapshot must not change after later recording, mutating it must not affect the scope, closed test subscopes stay visible. Exploration; the snapshot contents are input-dominated, the simulator adds the concurrent snapshots and seeded map order.",
          "As C01. Known finding D20 (two metrics whose documented snapshot key is the same string because a tag value or key contains a delimiter share one snapshot entry) is recognised by its signature and reported as KNOWN-FINDING."),
@@ -30,7 +30,7 @@ CLAIMED = {
          "As C01; reference bucket model written from the statement (first upper bound >= sample)."),
  "C20": ("6/C20", "deterministic simulation: concurrent histogram creation with bucket sets built to collide in the shared bucket cache; per-histogram tiling oracle + caller-slice immutability",
          "Several tasks create histograms under one root at the same time with permutations of one set, sets with equal sums of bit patterns and value/duration sets of equal identity, some sharing one caller slice, some built one after the other in one scratch slice that the caller overwrites; each histogram must deliver exactly the tiling of the bounds it was created with, and BucketPairs / Histogram never modify the caller's slice. Exploration. The constructor clauses (recurrence, rejected arguments, Must* panics) are pure functions: they are checked by seeded, boundary-biased calls against the recurrence (plain input generation inside the same runs, no schedule involved, no coverage of the argument space claimed).",
-         "As C03."),
+         "As C03. Part of the budget (25 s quick, 240 s thorough) runs the same programs under a -race build: two creations that touch one piece of memory without synchronisation are reported as a data race (the serialised simulation cannot put two goroutines inside one sort)."),
  "C04": ("6/C04", "deterministic simulation: concurrent derivation programs (depth 0-6) with seeded strings, caller-map mutation while passes run; name/tag reference model + per-identity ledger at the reporter seam",
          "Seeded derivation programs (SubScope/Tagged chains, any prefix/separator/root tags, ASCII, multi-byte and invalid UTF-8 strings, with and without a sanitizer) run by concurrent tasks with all metric kinds at the leaves; every value recorded through a handle must be delivered under exactly the name and tag set the reference model derives, nothing under any other identity, caller maps are neither mutated nor retained (mutated by the harness afterwards), maps handed to the reporter never change. Exploration; the derivation is a function of the program (covered by generation), the simulator adds concurrent derivation, caller-map mutation during passes and seeded map order in the merge/key code.",
          "As C01; an empty subscope name under an empty prefix is accepted in both readings of the statement; when a sanitizer maps two keys of one Tagged map to the same key the run is skipped (precedence undefined)."),
